@@ -1,0 +1,21 @@
+//go:build verif
+
+// Machine-checked contracts (read by /verif/bin/fsv; comment-only, guarded by the verif tag).
+// C18 (narrowed): what the merged context of the HTTP / gRPC adapters carries.
+
+package util
+
+// Environment (assumed): a context created from a parent inherits the parent's values, deadline and cancellation.
+//@ extfunc context.WithCancelCause
+//@   modifies nothing
+//@   ensures result_0 != nil && result_1 != nil && uf("ctxparent", result_0) == parent && fresh(payload(result_0))
+
+// The merged context is ctx1 itself, or ctx2 itself, or a context derived from both: whenever ctx1 is not the
+// background context, the merged context must still carry ctx1's values and deadline, i.e. be ctx1 or descend from it.
+//@ func MergeContexts
+//@   requires ctx1 != nil && ctx2 != nil
+//@   ensures [C18.merge.caller_context_kept] ctx1 != background() ==> result_0 == ctx1 || uf("ctxparent", result_0) == ctx1
+//@   ensures [C18.merge.background_passthrough] ctx1 == background() ==> result_0 == ctx2
+//@   ensures [C18.merge.cancel_func] result_1 != nil
+//@   havoc
+//@   modifies *
